@@ -7,6 +7,7 @@ pub mod extract;
 pub mod irdump;
 pub mod probe;
 pub mod tokpat;
+pub mod toks;
 pub mod wgpuval;
 pub mod overrides;
 
@@ -82,7 +83,7 @@ fn run_case(case: &Value) -> Value {
     let mut res = json!({
         "id": id, "parse_ok": false, "parse_err": null, "valid": null, "valid_err": null,
         "ir": null, "result": null, "err": null, "panic_msg": null, "text": null, "out": null,
-        "extract_err": null, "uses": null, "sampling": null, "features": [],
+        "extract_err": null, "uses": null, "sampling": null, "features": [], "toks": null, "toks_err": null,
     });
     let wgsl = match case.get("wgsl").and_then(Value::as_str) {
         Some(w) => w,
@@ -93,6 +94,7 @@ fn run_case(case: &Value) -> Value {
     };
     let include = case.get("include").and_then(Value::as_str);
     let want_text = case.get("want_text").and_then(Value::as_bool).unwrap_or(false);
+    let want_toks = case.get("want_toks").and_then(Value::as_bool).unwrap_or(false);
     let options = match write_options(case.get("opts").unwrap_or(&Value::Null)) {
         Ok(o) => o,
         Err(e) => {
@@ -159,6 +161,13 @@ fn run_case(case: &Value) -> Value {
     match generated {
         Ok(Ok(text)) => {
             res["result"] = json!("ok");
+            if want_toks {
+                match catch_unwind(AssertUnwindSafe(|| toks::tokens(&text))) {
+                    Ok(Ok(t)) => res["toks"] = json!(t),
+                    Ok(Err(e)) => res["toks_err"] = json!(e),
+                    Err(p) => res["toks_err"] = json!(format!("tokeniser panicked: {}", panic_message(p))),
+                }
+            }
             let extracted = catch_unwind(AssertUnwindSafe(|| extract::extract(&text)))
                 .unwrap_or_else(|p| Err(format!("extractor panicked: {}", panic_message(p))));
             match extracted {
